@@ -36,7 +36,9 @@ SOLVES = {
     "E": dict(ny=3, nx=4, dx=10.0, dy=12.0, pid="P2", n=3, halo=13.1, modes=(4, 2), levels=[1, 3], precision="single", fp=True),
     "F": dict(ny=3, nx=4, dx=10.0, dy=12.0, pid="P2", n=3, halo=13.1, modes=(4, 2), levels=[1, 3], precision="double", fp=True),
 }
-CONTROLS = ["T1", "T2", "T4", "T8", "R"]
+# "M": the caller overwrites the contents of the argument arrays IN PLACE (same objects, new values:
+# a second symbolic source, perturbed profiles) - what a time series does with a reused buffer
+CONTROLS = ["T1", "T2", "T4", "T8", "R", "M"]
 
 
 def histories(tier):
@@ -58,20 +60,52 @@ class Ctx:
     def __init__(self, patch=None):
         self.sp = af.Space()
         self.q = {}
+        self.qv = {}
         for shape in {(s["ny"], s["nx"]) for s in SOLVES.values()}:
-            self.q[shape] = af.sym_field(self.sp, shape, "q%dx%d" % shape)
+            self.qv[shape] = [af.sym_field(self.sp, shape, "q%dx%d" % shape), af.sym_field(self.sp, shape, "r%dx%d" % shape)]
         self.bg = self.sp.var("bg")
         self.patch = patch
         self.fresh_cache = {}
+        self.begin()
+
+    def zprof_of(self, sc, version):
+        z, prof = kindl.profiles(sc["pid"], sc["n"], seed=0)
+        z, prof = np.array(z, float), tuple(np.array(a, float) for a in prof)
+        if version:
+            u, v, Kx, Ky, Kz = prof
+            prof = (u * 0.9 + 0.1, v * 1.1 - 0.05, Kx * 1.07, Ky * 0.95, Kz * 1.03)
+        return z, prof
+
+    def begin(self):
+        """start of a history: the caller's live argument objects, version-0 contents"""
+        self.version = 0
+        self.q = {shape: self.qv[shape][0].copy().view(af.SymArr) for shape in self.qv}
+        self.zp = {}
+        for op, sc in SOLVES.items():
+            self.zp.setdefault((sc["pid"], sc["n"]), self.zprof_of(sc, 0))
+
+    def mutate(self):
+        self.version ^= 1
+        for shape in self.q:
+            self.q[shape][...] = self.qv[shape][self.version]
+        for (pid, n), (z, prof) in self.zp.items():
+            z2, prof2 = self.zprof_of(dict(pid=pid, n=n), self.version)
+            for a, b in zip(prof, prof2):
+                a[...] = b
 
     def new_sym(self):
         return kindl.Sym(record=False, space=self.sp, patch=self.patch)
 
-    def do(self, sym, op):
+    def do(self, sym, op, fresh_version=None):
         if op in SOLVES:
             sc = SOLVES[op]
-            q = self.q[(sc["ny"], sc["nx"])]
-            kw = dict(analytic=sc.get("analytic", False))
+            if fresh_version is None:
+                q = self.q[(sc["ny"], sc["nx"])]
+                zp = self.zp[(sc["pid"], sc["n"])]
+            else:  # brand-new objects with the same contents
+                q = self.qv[(sc["ny"], sc["nx"])][fresh_version].copy().view(af.SymArr)
+                zp = self.zprof_of(sc, fresh_version)
+            kw = dict(analytic=sc.get("analytic", False), zprof=zp)
             if sc["fp"]:
                 kw.update(footprint=True, meas_pt=(sc["dx"], sc["dy"]))
             else:
@@ -79,16 +113,18 @@ class Ctx:
             return kindl.sym_solve(sym, sc, q, **kw)
         if op == "R":
             sym.fft_manager.reset_fft_manager()
+        elif op == "M":
+            self.mutate()
         else:
             sym.config.NUM_THREADS = int(op[1:])
         return None
 
-    def fresh(self, op, threads):
-        key = (op, threads)
+    def fresh(self, op, threads, version=0):
+        key = (op, threads, version)
         if key not in self.fresh_cache:
             sym = self.new_sym()
             sym.config.NUM_THREADS = threads
-            self.fresh_cache[key] = self.do(sym, op)
+            self.fresh_cache[key] = self.do(sym, op, fresh_version=version)
         return self.fresh_cache[key]
 
 
@@ -117,6 +153,7 @@ def compare(run, ctx, res, ref, ob, scn):
 def run_histories(run, ctx, hs, cexlist=None):
     for h in hs:
         sym = ctx.new_sym()
+        ctx.begin()
         threads = 1
         last = None
         try:
@@ -124,7 +161,7 @@ def run_histories(run, ctx, hs, cexlist=None):
                 last = ctx.do(sym, op)
                 if op.startswith("T"):
                     threads = int(op[1:])
-            ref = ctx.fresh(h[-1], 1)  # thread settings must not matter either
+            ref = ctx.fresh(h[-1], 1, ctx.version)  # thread settings must not matter either
         except af.NonAffine:
             raise
         except Exception as e:
@@ -175,13 +212,21 @@ import bldfm.fft_manager as FM
 h = json.loads(sys.argv[1])
 rng = np.random.default_rng(9)
 fields = {}
+zps = {}
+ctx = C12.Ctx.__new__(C12.Ctx)
+state = dict(version=0)
+def content(key, version):
+    return np.random.default_rng(sum(key) + 100 * version).standard_normal(key)
 def do(op):
     if op in C12.SOLVES:
         sc = C12.SOLVES[op]
         key = (sc["ny"], sc["nx"])
         if key not in fields:
-            fields[key] = np.random.default_rng(sum(key)).standard_normal(key)
-        kw = dict(analytic=sc.get("analytic", False))
+            fields[key] = content(key, state["version"])
+        pk = (sc["pid"], sc["n"])
+        if pk not in zps:
+            zps[pk] = ctx.zprof_of(sc, state["version"])
+        kw = dict(analytic=sc.get("analytic", False), zprof=zps[pk])
         if sc["fp"]:
             kw.update(footprint=True, meas_pt=(sc["dx"], sc["dy"]))
         else:
@@ -189,6 +234,13 @@ def do(op):
         return kindl.real_solve(sc, fields[key], **kw)
     if op == "R":
         FM.reset_fft_manager()
+    elif op == "M":
+        state["version"] ^= 1
+        for key in fields:
+            fields[key][...] = content(key, state["version"])
+        for (pid, n), (z, prof) in zps.items():
+            for a, b in zip(prof, ctx.zprof_of(dict(pid=pid, n=n), state["version"])[1]):
+                a[...] = b
     else:
         real.config.NUM_THREADS = int(op[1:])
 last = None
@@ -207,7 +259,8 @@ print(json.dumps(dict(c=np.asarray(c, float).tolist(), f=np.asarray(f, float).to
         return json.loads(line[-1]), None
 
     a, ea = run_h(h)
-    b, eb = run_h([h[-1]])
+    # the reference process starts from the same CONTENTS (an "M" before any solve only selects the contents)
+    b, eb = run_h((["M"] if sum(1 for o in h if o == "M") % 2 else []) + [h[-1]])
     out = dict(history=h)
     if a is None or b is None:
         out.update(error_history=ea, error_fresh=eb, confirmed=bool((a is None) != (b is None)))
@@ -251,7 +304,7 @@ def canary_job(args):
     except KeyError:
         return name, False, False
     cex = []
-    hs = [["B", "A"], ["A", "B"], ["T4", "A"], ["C", "A"], ["A", "A"], ["A", "C", "A"], ["D", "T2", "F"]]
+    hs = [["B", "A"], ["A", "B"], ["T4", "A"], ["C", "A"], ["A", "A"], ["A", "C", "A"], ["D", "T2", "F"], ["A", "M", "A"], ["F", "M", "F"]]
     try:
         ctx.new_sym()
     except KeyError:
